@@ -149,6 +149,19 @@ def check(case, ctx):
                 break
         if case["planted"] and f <= g:
             ctx.true("recovery", res <= 1e-7 * ny, "planted orthogonal map not recovered: residual %.3e" % res)
+    # the smallest admissible training set: one sample (the best orthogonal map turns x onto the direction of y)
+    if not proj and case["cseed"] % 4 == 0:
+        with ctx.lib("fit(one sample)"):
+            o1 = OR(use_orthogonal_projector=False).fit(X[:1], y[:1])
+            W1 = np.asarray(o1.coef_).T
+        mx = max(f, g)
+        x1, y1 = np.pad(X[0], (0, mx - f)), np.pad(y[0], (0, mx - g))
+        ctx.true("one-sample:orthogonal", W1.shape == (mx, mx) and float(np.abs(W1.T @ W1 - np.eye(mx)).max()) <= 1e-8, "coef_ of a one-sample fit is not orthogonal")
+        if W1.shape == (mx, mx):
+            r1 = float(np.linalg.norm(y1 - x1 @ W1))
+            best = abs(float(np.linalg.norm(x1) - np.linalg.norm(y1)))
+            ctx.true("one-sample:optimal", r1 <= best + 1e-9 * max(1.0, float(np.linalg.norm(y1))), "one-sample residual %.9g, a reflection reaches %.9g" % (r1, best))
+        ctx.count("one_sample_fits")
     # norm non-expansion on new and training data
     for nm, A, B in (("train", X, pred), ("new", case["Xnew"], pn)):
         na, nb = np.linalg.norm(A, axis=1), np.linalg.norm(B, axis=1)
